@@ -534,6 +534,15 @@ fn replay_panic_site(input: &Value) -> R {
 			p.custom_extensions.push(CustomExtension::from_oid_content(&oid, vec![5, 0]))
 		},
 		"custom_dn_oid" => p.distinguished_name.push(DnType::CustomDnType(oid), "x"),
+		"dn_printable" => {
+			// a value the PrintableString constructor accepts
+			let v = string::PrintableString::try_from(text.as_str()).map_err(|e| e.to_string())?;
+			p.distinguished_name.push(DnType::CommonName, DnValue::PrintableString(v))
+		},
+		"dn_ia5" => {
+			let v = string::Ia5String::try_from(text.as_str()).map_err(|e| e.to_string())?;
+			p.distinguished_name.push(DnType::CommonName, DnValue::Ia5String(v))
+		},
 		"san_othername_oid" => {
 			p.subject_alt_names.push(SanType::OtherName((oid, OtherNameValue::from("x"))))
 		},
